@@ -1688,6 +1688,33 @@ def run(index, rep, tier):
                       "NexusReader.%s reads `self._file_specified_nchar` but is not reached from the characters-block parser: the field holds the NCHAR of the LAST characters block (None when that block had no DIMENSIONS) - `BEGIN CHARACTERS; END; BEGIN SETS; CHARSET x = 1-3; END;` after a complete DATA block fails with TypeError ('<' between NoneType and int), and with two matrices a CHARSET linked to the first is clipped to the width of the second" % mname)
         rep.floor("R20.28", "readers of _file_specified_nchar", 4, n28)
 
+    # ---- R20.29 a position from the document is checked at both ends
+    with rep.section("R20.29"):
+        rep.rule("R20.29", "a position from the document is checked at both ends: where NexusReader._parse_positions refuses a position above the matrix's width, it also refuses one below 1 (a raising comparison of the same variable with 0 or 1) - positions are 1-based in the document and are shifted down by one afterwards, so an unchecked 0 becomes the index -1 and the set silently points at the LAST column")
+        pp = index.function("dendropy.dataio.nexusreader.NexusReader._parse_positions")
+        g29 = cfg_of(pp)
+        upper, lower = [], []
+        for nd in g29.nodes:
+            if nd.kind != "test" or not isinstance(nd.ast, ast.Compare) or len(nd.ast.ops) != 1:
+                continue
+            if raises_in_branch(g29, nd, "t") is None and raises_in_branch(g29, nd, "f") is None:
+                continue
+            l_, op_, r_ = nd.ast.left, nd.ast.ops[0], nd.ast.comparators[0]
+            for a_, b_, flip in ((l_, r_, False), (r_, l_, True)):
+                if not isinstance(a_, ast.Name):
+                    continue
+                gt = isinstance(op_, (ast.Gt, ast.GtE)) != flip and isinstance(op_, (ast.Gt, ast.GtE, ast.Lt, ast.LtE))
+                lt = isinstance(op_, (ast.Lt, ast.LtE)) != flip and isinstance(op_, (ast.Gt, ast.GtE, ast.Lt, ast.LtE))
+                if gt and "max" in norm(b_):
+                    upper.append((a_.id, nd))
+                if lt and isinstance(b_, ast.Constant) and b_.value in (0, 1):
+                    lower.append((a_.id, nd))
+        if not upper:
+            raise AnalysisError("R20.29: the upper-bound refusal in _parse_positions not recognised")
+        for vn, nd in upper:
+            rep.check(any(v2 == vn for v2, _ in lower), "R20.29", pp.qualname, "position checked against the upper bound only", fn_where(pp, nd.stmt), "_parse_positions refuses `%s` below 1 as well as above the width" % vn,
+                      "NexusReader._parse_positions refuses `%s` but never a position below 1: `CHARSET x = 0;` is accepted, shifted to the index -1, and the character set silently selects the last column of the matrix" % norm(nd.ast)[:50])
+
 
 def _branch_calls_raiser(cfg, n):
     for lab, t in n.succ:
